@@ -87,11 +87,29 @@ type obSample struct {
 	What   string `json:"what,omitempty"`
 }
 
+// sweepProps: properties whose statement is "never panics / never hangs": they own the panic-safety and
+// termination obligations of every function that lists them, in addition to the function's first
+// property (the same obligation is then checked, and reported, by both checks).
+var sweepProps = map[string]bool{"C29": true, "C13": true, "C21": true, "C02": true}
+
+var safetyKinds = map[string]bool{"nil": true, "bounds": true, "typeassert": true, "div0": true, "makelen": true, "nilmap": true,
+	"close": true, "panic": true, "blocking": true, "decreases": true, "overflow": true}
+
 func owns(prop string, c *Contract, ob *Obligation) bool {
 	if ob.Prop != "" {
 		return ob.Prop == prop
 	}
-	return len(c.Props) > 0 && c.Props[0] == prop
+	if len(c.Props) > 0 && c.Props[0] == prop {
+		return true
+	}
+	if sweepProps[prop] && hasProp(c, prop) {
+		k := ob.Kind
+		if i := strings.LastIndex(k, "/"); i >= 0 { // obligations of inlined callees: inl(f)@0/nil
+			k = k[i+1:]
+		}
+		return safetyKinds[k] || strings.HasPrefix(k, "pre:") || ob.Cover
+	}
+	return false
 }
 
 var returnOrdinalRe = regexp.MustCompile(`@\d+$`)
